@@ -26,6 +26,21 @@ def dispatch (op : String) (f : List Text) : String :=
   | "semver.ispre", [s] => tf (Semver.isPrerelease s)
   | "semver.bump", cur :: avail =>
     s!"{opt (Semver.calcLatestPatch cur avail)} {opt (Semver.calcLatestMinor cur avail)} {opt (Semver.calcLatestMajor cur avail)}"
+  | "checker.pure", eco :: latest :: tagres :: cur :: versions => checkerPure eco latest tagres cur versions
+  | "spec.diag", eco :: latest :: tagres :: cur :: versions => specDiag eco latest tagres cur versions
+  | "spec.judge", [eco, spec, v] =>
+    match String.ofList eco with
+    | "npm" | "pnpm" | "jsr" => s!"{specNpmSat spec v} {specNpmFrag spec}"
+    | "crates" => s!"{specCratesSat spec v} {tf (Spec.CargoReq.inFrag spec)}"
+    | "go" => s!"{specGoSat spec v} T"
+    | "gha" => s!"{specGhaSat spec v} T"
+    | _ => "UNKNOWN-ECO"
+  | "spec.npm.sat", [spec, v] => specNpmSat spec v
+  | "spec.npm.frag", [spec] => specNpmFrag spec
+  | "spec.crates.sat", [spec, v] => specCratesSat spec v
+  | "spec.crates.frag", [spec] => tf (Spec.CargoReq.inFrag spec)
+  | "spec.go.sat", [spec, v] => specGoSat spec v
+  | "spec.gha.sat", [spec, v] => specGhaSat spec v
   | "match.exists", eco :: spec :: vs =>
     match matcherFor eco with
     | some m => tf (m.exists_ spec vs)
